@@ -109,15 +109,15 @@ type Engine struct {
 	LastRemoved string // target of the last successful cleaner-style removal
 	LastErr     error  // error of the last management call (nil = accepted)
 	// configuration
-	CheckSnaps   bool
+	CheckSnaps bool
 	// FollowInvalidCandidates: when the product offers a deletion candidate the
 	// statement of C11 forbids because of a retained user snapshot (the candidate
 	// itself, or its merge target), do not stop there: carry the deletion out as
 	// the cleaner would and let the snapshot-immutability oracle (C06) decide.
 	FollowInvalidCandidates bool
-	CheckCounter bool
-	CheckChain   bool
-	preload      bool
+	CheckCounter            bool
+	CheckChain              bool
+	preload                 bool
 }
 
 func scratchRoot() string {
